@@ -2201,6 +2201,60 @@ func replayC16(o *Obligation) (string, string, string, bool) {
 	if !strings.HasPrefix(o.Name, "workerpool.") {
 		return "", "", "", false
 	}
+	if strings.HasPrefix(o.Name, "workerpool.WorkerPool.Start::") {
+		src := `package workerpool
+
+import (
+	"testing"
+	"time"
+)
+
+// oracle: a pool can be started again after Shutdown - Start returns, whatever the previous life is still doing, and the
+// restarted pool runs the tasks it accepts
+func TestVerifReplay(t *testing.T) {
+	for _, busy := range []bool{false, true} {
+		p := New("p", WithWorkerCount(2)).Start()
+		hold := make(chan struct{})
+		if busy {
+			running := make(chan struct{})
+			p.Submit(func() { close(running); <-hold })
+			<-running
+		} else {
+			p.Submit(func() {})
+		}
+		p.Shutdown()
+		started := make(chan struct{})
+		go func() { p.Start(); close(started) }()
+		if busy {
+			time.Sleep(100 * time.Millisecond)
+			close(hold)
+		}
+		select {
+		case <-started:
+		case <-time.After(3 * time.Second):
+			t.Fatalf("REPLAY-VIOLATION Shutdown(); Start() (a task of the previous life still running: %v): Start does not return within 3s - it waits for the workers of the previous life while holding the pool mutex, and their dispatcher needs that mutex (IsRunning) to close the dispatch channel", busy)
+		}
+		ran := make(chan struct{})
+		func() {
+			defer func() {
+				if r := recover(); r != nil {
+					t.Fatalf("REPLAY-VIOLATION Submit on the restarted pool panics: %v", r)
+				}
+			}()
+			p.Submit(func() { close(ran) })
+		}()
+		select {
+		case <-ran:
+		case <-time.After(3 * time.Second):
+			t.Fatalf("REPLAY-VIOLATION a task accepted by the restarted pool is not run within 3s")
+		}
+		p.Shutdown()
+		p.ShutdownComplete.Wait()
+	}
+}
+`
+		return "runtime", "workerpool", src, true
+	}
 	src := `package workerpool
 
 import (
